@@ -79,7 +79,7 @@ def cases(tier, seed):
     for st, d in (("leaves", 2), ("leaves", 3), ("doone", 2), ("walk", 3), ("leaves", 2)):
         for k in (2, 4) if tier == "quick" else (2, 3, 4, 8):
             allp = rq.all_positions(d, d) if st == "leaves" else (rq.all_positions(d) if st == "doone" else rq.all_positions(d - 1))
-            add(st, list(R.choice(allp[-4:])), depth=d, par=k, late=0.25, profile="natural")
+            add(st, list(R.choice(allp[-4:])), depth=d, par=k, late=R.choice([0.25, 0.7, 1.5]), profile="natural")  # = 12 s ... 75 s of dilated time
             add(st, list(allp[-1]), depth=d, par=k, late=0.15, profile="slow_workers")
             if st != "walk":
                 add(st, "ALL", depth=d, par=k, late=0.05, profile="natural")
@@ -112,6 +112,7 @@ def _stage_fn(spec, workdir):
             p = [int(pos.n), int(pos.x), int(pos.y)]
             evlog.ev("cb_start", pos=p)
             if p == item or item == "ALL":
+                evlog.ev("fault_armed")
                 if spec.get("late"):
                     import time as _time
 
@@ -130,6 +131,7 @@ def _stage_fn(spec, workdir):
             p = [int(pos.n), int(pos.x), int(pos.y)]
             evlog.ev("cb_start", pos=p)
             if p == item or item == "ALL":
+                evlog.ev("fault_armed")
                 if spec.get("late"):
                     import time as _time
 
@@ -162,6 +164,7 @@ def _stage_fn(spec, workdir):
             p = [int(pos.n), int(pos.x), int(pos.y)]
             evlog.ev("cb_start", pos=p)
             if p == item or item == "ALL":
+                evlog.ev("fault_armed")
                 if spec.get("late"):
                     import time as _time
 
@@ -347,6 +350,11 @@ def run_case(spec, workdir):
     if outcome == "watchdog":
         return dict(status="inconclusive", detail="watchdog: neither an outcome nor a stuck state was recognised")
     if not injected:
+        if outcome == "returned" and any(r["k"] == "fault_armed" for r in recs):
+            # the failing item was being processed when the operation returned normally: its error can no longer reach the caller
+            return dict(status="violation", key="%s:%s:returned-while-failing-item-in-progress" % (spec["stage"], "serial" if par == 1 else "parallel"),
+                        detail="stage %s k=%d: the operation returned normally while the item that fails (%s, after %.2f s) was still being processed" % (spec["stage"], par, spec["item"], spec.get("late") or 0),
+                        counters=dict(counters), witness_files=dict(eventlog=log))
         return dict(status="inconclusive", detail="fault was never injected (item not reached)")
     sample = dict(spec=spec, outcome=outcome, info=info, tail=[{k: r.get(k) for k in ("k", "pid", "role", "q", "pos", "item", "e") if r.get(k) is not None} for r in recs[-8:]])
     res = dict(counters=dict(counters), nontrivial=par >= 2, sample=sample,
